@@ -52,7 +52,7 @@ def phpass_contract(prop):
                                         modifies=["r", "result"], decreases="real_rounds - r")},
         ensures=[("checksum == encode64 of MD5 iterated 2^rounds times over (h || password), starting from MD5(salt || password)",
                   "result.encode('ascii') == enc64(iterate(H(self.salt.encode('ascii') + secret), secret, 1 << self.rounds))")],
-        prop=prop, descr="every password, salt, every cost 0..30; MD5 abstract",
+        prop=prop, descr="every password, salt, every cost 0..30; MD5 abstract", replay=_phpass_replay(),
     )
 
 
@@ -90,5 +90,46 @@ def sha1_crypt_contract(prop):
         requires=["b'\\x00' not in secret", lambda it, env: it.all_codes_below(it.to_z3(env.lookup("self").fields["salt"]), 128)],
         loops={"_calc_checksum_builtin#0": Loop(invariant=["0 <= __i0__", "result == hiter(secret, (self.salt + '$sha1$' + str(rounds)).encode('ascii'), __i0__)"], modifies=["result", "_"])},
         ensures=[("checksum == transposed encoding of HMAC(password, .) iterated `rounds` times over salt || '$sha1$' || rounds", post)],
-        prop=prop, descr="every password without NUL, every ASCII salt, every rounds >= 1; HMAC abstract (proved under C11)",
+        prop=prop, descr="every password without NUL, every ASCII salt, every rounds >= 1; HMAC abstract (proved under C11)", replay=_sha1_replay(),
     )
+
+
+# ---- replay hooks: the postconditions as executable specifications (hashlib / hmac as the abstract hash) ----
+def _iter_search(values):
+    out = []
+    for secret in ("", "a", "password", "x" * 64, "éÿ"):
+        for rounds in (1, 2, 3, 7, 8):
+            out.append(dict(values, secret=secret, rounds=rounds))
+    return out
+
+
+def _phpass_replay():
+    from pyvc.replay import py_replay
+    ref = """
+import hashlib
+from passlib.handlers.phpass import phpass
+from passlib.utils.binary import h64
+def ref(secret, salt, rounds):
+    d = hashlib.md5(salt.encode('ascii') + secret).digest()
+    for _ in range(1 << rounds):
+        d = hashlib.md5(d + secret).digest()
+    return h64.encode_bytes(d).decode('ascii')
+"""
+    return py_replay(ref, "s = V['secret'].encode('latin-1'); r = (phpass(salt='saltsalt', rounds=V['rounds'] + 6, use_defaults=True)._calc_checksum(s), ref(s, 'saltsalt', V['rounds'] + 6))",
+                     "exc is None and r[0] == r[1]", {"secret": "password", "rounds": 1}, search=_iter_search)
+
+
+def _sha1_replay():
+    from pyvc.replay import py_replay
+    ref = """
+import hashlib, hmac
+from passlib.handlers.sha1_crypt import sha1_crypt
+from passlib.utils.binary import h64
+def ref(secret, salt, rounds):
+    d = (salt + '$sha1$' + str(rounds)).encode('ascii')
+    for _ in range(rounds):
+        d = hmac.new(secret, d, hashlib.sha1).digest()
+    return h64.encode_transposed_bytes(d, sha1_crypt._chk_offsets).decode('ascii')
+"""
+    return py_replay(ref, "s = V['secret'].encode('latin-1'); r = (sha1_crypt(salt='saltsalt', rounds=V['rounds'], use_defaults=True)._calc_checksum_builtin(s), ref(s, 'saltsalt', V['rounds']))",
+                     "exc is None and r[0] == r[1]", {"secret": "password", "rounds": 1}, search=_iter_search)
